@@ -4,7 +4,10 @@ package main
 // library and canonicalise what it does (data, error paths/locations/kinds, resolver call log).
 
 import (
+	"flag"
 	"fmt"
+	"math/rand"
+	"os"
 	"reflect"
 	"regexp"
 	"sort"
@@ -501,6 +504,21 @@ func noteOffset(b *strings.Builder) {
 	}
 }
 
+// keyText: the response key of alias a; alias 12 is written "data", the key of the envelope itself
+func keyText(a string) string {
+	if a == "12" {
+		return "data"
+	}
+	return "f" + a
+}
+
+func keyID(k string) (int, bool) {
+	if k == "data" {
+		return 12, true
+	}
+	return nameID(k, "f")
+}
+
 func selText(b *strings.Builder, s sx.S, order *[]int) {
 	l := sx.List(s)
 	switch sx.Head(s) {
@@ -508,7 +526,7 @@ func selText(b *strings.Builder, s sx.S, order *[]int) {
 		noteOffset(b)
 		*order = append(*order, sx.Int(l[1]))
 		if a, ok := l[2].(string); ok && a != "-" {
-			b.WriteString("f" + a + ": ")
+			b.WriteString(keyText(a) + ": ")
 		}
 		if l[3].(string) == "0" {
 			b.WriteString("__typename")
@@ -685,7 +703,7 @@ func canonData(v interface{}) sx.S {
 		}
 		keys := make([]kv, 0, len(t))
 		for k := range t {
-			n, ok := nameID(k, "f")
+			n, ok := keyID(k)
 			if !ok {
 				n = -1
 				if k == "__typename" {
@@ -737,7 +755,7 @@ func (er *execRun) canonErr(e map[string]interface{}, execPhase bool) sx.S {
 			case int:
 				path = append(path, sx.L("i", sx.A(t)))
 			case string:
-				if n, ok := nameID(t, "f"); ok {
+				if n, ok := keyID(t); ok {
 					path = append(path, sx.L("k", sx.A(n)))
 				} else if t == "__typename" {
 					path = append(path, sx.L("k", "0"))
@@ -867,6 +885,19 @@ func execSetup(secs []sx.S) (*ggql.Root, *world, sx.S) {
 		root.AnyResolver = &anyRes{w: w}
 	}
 	// bind every object type to its Go type up front (registered bindings)
+	if !execLateBinding {
+		if err := execRegisterAll(root, w, types); err != nil {
+			return nil, nil, sx.L("register-error", sx.Hex(err.Error()))
+		}
+	}
+	return root, w, nil
+}
+
+// execLateBinding: execSetup leaves the object types unbound (the late-binding leg registers them
+// after a first request has run)
+var execLateBinding bool
+
+func execRegisterAll(root *ggql.Root, w *world, types []sx.S) error {
 	for _, t := range types {
 		if sx.Head(t) == "obj" {
 			id := sx.Int(sx.List(t)[1])
@@ -875,11 +906,64 @@ func execSetup(secs []sx.S) (*ggql.Root, *world, sx.S) {
 				r = true
 			}
 			if err := root.RegisterType(newNodeObj(w, -1, id, r), typeName(id)); err != nil {
-				return nil, nil, sx.L("register-error", sx.Hex(err.Error()))
+				return err
 			}
 		}
 	}
-	return root, w, nil
+	return nil
+}
+
+// latebindMain is the late-binding leg of C08: the executor model takes the bindings of Go types to
+// object types as static data of a case.  Here every case runs on two roots: one with all types
+// registered before the first request, one that answers the request once with every type unbound,
+// then has the types registered, then answers again.  Once the types are bound the second root
+// must answer exactly as the first (whatever it remembered from the time they were not).
+func latebindMain(args []string) {
+	fs := flag.NewFlagSet("latebind", flag.ExitOnError)
+	seed := fs.Int64("seed", 1, "PRNG seed")
+	n := fs.Int("n", 300, "cases")
+	_ = fs.Parse(args)
+	r := rand.New(rand.NewSource(*seed))
+	p := profC08
+	p.pIll, p.noWrongType = 0, true // well-typed data only: a value of another Go type met first is bound to the object type by ggql's lazy binding, and the later registration is then refused
+	bad := 0
+	abstract := 0
+	for i := 0; i < *n; i++ {
+		c := genExecCase(r, &p, "lb"+strconv.Itoa(i))
+		secs := sx.List(c.Input)[1:]
+		for _, t := range c.Tags {
+			if t == "abstract-field" {
+				abstract++
+			}
+		}
+		first := execExec(c.Input)
+		execLateBinding = true
+		root, w, fail := execSetup(secs)
+		execLateBinding = false
+		var second sx.S
+		if fail != nil {
+			second = fail
+		} else {
+			_ = execRunDoc(secs, root, w) // every type still unbound
+			if err := execRegisterAll(root, w, section(secs, "schema")); err != nil {
+				second = sx.L("register-error", sx.Hex(err.Error()))
+			} else {
+				second = execRunDoc(secs, root, w)
+			}
+		}
+		if sx.String(first) != sx.String(second) {
+			bad++
+			if bad <= 3 {
+				fmt.Printf("FAIL %s\n  request: %s\n  types registered first: %s\n  types registered after a first request: %s\n  case: %s\n",
+					c.ID, strings.ReplaceAll(c.Human, "\n", " "), sx.String(first), sx.String(second), sx.String(c.Input))
+			}
+		}
+	}
+	fmt.Printf("latebind: %d cases (%d with abstract-typed fields), %d differ\n", *n, abstract, bad)
+	if bad > 0 {
+		os.Exit(1)
+	}
+	os.Exit(0)
 }
 
 // withMaxDepth sets the depth budget of the run (ggql.MaxResolveDepth, a package variable: the
